@@ -482,6 +482,23 @@ def proc_stage(res, rng, vh, scen, size=2, maxnow=5, maxev=3, nmodel=120, nfree=
             sc = {"tr": base, "size_ms": size_ms, "ticks": 0, "groups": rng.choice([1, 2]), "free": True, "steps": steps}
             mine[base] = sc
             f.write(json.dumps(sc) + "\n")
+        # a consumer that is busy for several intervals (its sink sleeps on the first delivery): results of the intervals that end meanwhile wait in
+        # the window's output queue, empty intervals pass - every result still carries ITS interval when it is finally delivered
+        for _ in range(max(3, nfree // 3)):
+            base += 1
+            size_ms = rng.choice([40, 60, 80])
+            steps, i = [], 0
+            for _k in range(rng.choice([2, 3])):            # rows in two or three consecutive intervals, then silence
+                for _j in range(rng.choice([1, 2, 3])):
+                    i += 1
+                    steps.append({"a": "add", "id": i})
+                steps.append({"a": "sleep", "gap": size_ms * 1000})
+            steps.append({"a": "sleep", "gap": 4 * size_ms * 1000})
+            i += 1
+            steps.append({"a": "add", "id": i})
+            sc = {"tr": base, "size_ms": size_ms, "ticks": 0, "groups": rng.choice([1, 2]), "free": True, "steps": steps, "sinkstall_ms": int(size_ms * rng.choice([2.5, 3.5]))}
+            mine[base] = sc
+            f.write(json.dumps(sc) + "\n")
         # a manual trigger and then one row queue up behind a reader that holds the window lock across an interval boundary
         for _ in range(max(3, nfree // 3)):
             base += 1
